@@ -146,3 +146,129 @@ Print Assumptions C18_interleaving_independent.
 Print Assumptions C18_progress.
 Print Assumptions C18_fair_schedule_sequential.
 Print Assumptions C18_example_three_threads.
+
+(** audit C18-F2 (work package audit-followups): the abstract parameters instantiated with a REAL
+    algorithm - Groestl's lazily initialised implementation choice (Model/FeaturesGroestl.v,
+    Proofs/FollowupsGroestl.v):
+      V = [gresult gmodule] (module chosen by [dispatch_init] from the CPU oracle: feature 0 = aes,
+          1 = ssse3, 2 = sse2; or the initialiser's panic), the same function for each of the six
+          cells ([C18_groestl_six_cells_agree]); target features [t] fixed at compile time;
+      Op = ONE dispatched call ([CInit512 | CTf512 | COf512 | CInit1024 | CTf1024 | COf1024]; cell =
+          the called function's lazy_static), St = the compressor's chaining value, Out = returned | panicked;
+      thread program = [calls512 256 msg] = init on the IV block, tf on each block of the padded message,
+          of - which IS the call sequence of lib.rs's hasher for any compressor functions
+          ([C18_groestl_hasher_calls], from C07_schedule_eq_spec).
+    Corollary: for EVERY schedule of threads doing their first Groestl calls concurrently from a cold
+    process, on a CPU reporting at least one of the three levels, each finished thread's instance
+    holds the chaining value whose cut is [Spec.Groestl.groestl256] of ITS message, and all its calls
+    returned. *)
+From Coq Require Import NArith Bool.
+From CC Require Import Spec.AES Model.GroestlIntrinsics Model.Groestl Model.Features Model.FeaturesGroestl.
+From CC Require Import Proofs.GroestlHash Proofs.FollowupsGroestl.
+From CC Require Spec.Groestl.
+Import FollowupsGroestl.F_C18.
+
+Theorem C18_groestl_hasher_calls :
+  forall (i : X -> X) (f : X -> list N -> X) (o : X -> X) bits out msg,
+    fits 64 msg ->
+    digest (C 64 i f o) bits out msg
+    = out (concat (o (fold_left f (Spec.Groestl.blocks 64 (Spec.Groestl.pad 64 msg)) (i (iv_regs512 bits))))).
+Proof. exact hasher_calls_512. Qed.
+
+Theorem C18_groestl_six_cells_agree : forall t cpu c c', g_choose t cpu c = g_choose t cpu c'.
+Proof. exact six_cells_agree. Qed.
+
+Theorem C18_groestl256_concurrent_first_use :
+  forall (t : gtgt) (cpu : nat -> bool) (g0 : gstate (gresult gmodule) X gcall gout) (sched : list nat),
+    initial (gresult gmodule) X gcall gout g0 ->
+    (cpu 0 || cpu 1 || cpu 2 = true)%nat ->
+    forall i t0 tf msg,
+      nth_error (threads (gresult gmodule) X gcall gout g0) i = Some t0 ->
+      t_prog (gresult gmodule) gcall gout t0 = calls512 256 msg -> fits 64 msg ->
+      nth_error (threads (gresult gmodule) X gcall gout
+                   (run (gresult gmodule) X gcall gout cpu (g_choose t) g_cell_of (g_exec sbox_fast) sched g0)) i = Some tf ->
+      t_prog (gresult gmodule) gcall gout tf = [] ->
+      out256 (concat (tbl (gresult gmodule) X gcall gout
+                        (run (gresult gmodule) X gcall gout cpu (g_choose t) g_cell_of (g_exec sbox_fast) sched g0)
+                        (t_inst (gresult gmodule) gcall gout t0)))
+        = Spec.Groestl.groestl256 msg
+      /\ all_returned (t_outs (gresult gmodule) gcall gout tf)
+      /\ length (t_outs (gresult gmodule) gcall gout tf) = length (calls512 256 msg).
+Proof. exact concurrent_first_use_groestl256. Qed.
+
+Theorem C18_groestl512_concurrent_first_use :
+  forall (t : gtgt) (cpu : nat -> bool) (g0 : gstate (gresult gmodule) X gcall gout) (sched : list nat),
+    initial (gresult gmodule) X gcall gout g0 ->
+    (cpu 0 || cpu 1 || cpu 2 = true)%nat ->
+    forall i t0 tf msg,
+      nth_error (threads (gresult gmodule) X gcall gout g0) i = Some t0 ->
+      t_prog (gresult gmodule) gcall gout t0 = calls1024 512 msg -> fits 128 msg ->
+      nth_error (threads (gresult gmodule) X gcall gout
+                   (run (gresult gmodule) X gcall gout cpu (g_choose t) g_cell_of (g_exec sbox_fast) sched g0)) i = Some tf ->
+      t_prog (gresult gmodule) gcall gout tf = [] ->
+      out512 (concat (tbl (gresult gmodule) X gcall gout
+                        (run (gresult gmodule) X gcall gout cpu (g_choose t) g_cell_of (g_exec sbox_fast) sched g0)
+                        (t_inst (gresult gmodule) gcall gout t0)))
+        = Spec.Groestl.groestl512 msg
+      /\ all_returned (t_outs (gresult gmodule) gcall gout tf).
+Proof. exact concurrent_first_use_groestl512. Qed.
+
+(** a thread given 4 micro-steps per call does finish, whatever the others do *)
+Theorem C18_groestl256_concurrent_first_use_fair :
+  forall (t : gtgt) (cpu : nat -> bool) (g0 : gstate (gresult gmodule) X gcall gout) (sched : list nat),
+    initial (gresult gmodule) X gcall gout g0 ->
+    (cpu 0 || cpu 1 || cpu 2 = true)%nat ->
+    forall i t0 msg,
+      nth_error (threads (gresult gmodule) X gcall gout g0) i = Some t0 ->
+      t_prog (gresult gmodule) gcall gout t0 = calls512 256 msg -> fits 64 msg ->
+      4 * length (calls512 256 msg) <= count_occ Nat.eq_dec sched i ->
+      out256 (concat (tbl (gresult gmodule) X gcall gout
+                        (run (gresult gmodule) X gcall gout cpu (g_choose t) g_cell_of (g_exec sbox_fast) sched g0)
+                        (t_inst (gresult gmodule) gcall gout t0)))
+        = Spec.Groestl.groestl256 msg.
+Proof. exact concurrent_first_use_groestl256_fair. Qed.
+
+(** no level detected: in every schedule every call of every thread panics, no instance changes *)
+Theorem C18_groestl_no_sse2_all_calls_panic :
+  forall (S : N -> N) (t : gtgt) (cpu : nat -> bool) (g0 : gstate (gresult gmodule) X gcall gout) (sched : list nat),
+    initial (gresult gmodule) X gcall gout g0 ->
+    cpu 0%nat = false -> cpu 1%nat = false -> cpu 2%nat = false ->
+    forall i t0 tf,
+      nth_error (threads (gresult gmodule) X gcall gout g0) i = Some t0 ->
+      nth_error (threads (gresult gmodule) X gcall gout
+                   (run (gresult gmodule) X gcall gout cpu (g_choose t) g_cell_of (g_exec S) sched g0)) i = Some tf ->
+      Forall (fun o => o = Panicked) (t_outs (gresult gmodule) gcall gout tf) /\
+      tbl (gresult gmodule) X gcall gout
+          (run (gresult gmodule) X gcall gout cpu (g_choose t) g_cell_of (g_exec S) sched g0) (t_inst (gresult gmodule) gcall gout t0)
+        = tbl (gresult gmodule) X gcall gout g0 (t_inst (gresult gmodule) gcall gout t0).
+Proof. exact concurrent_first_use_no_sse2. Qed.
+
+(** second reading: instance = the whole hasher state of Model/Groestl.v, operations = new / update /
+    finalize with the chosen module's functions (one cell consulted per operation - relies on
+    C18_groestl_six_cells_agree) *)
+Theorem C18_groestl256_hasher_concurrent_first_use :
+  forall (t : gtgt) (cpu : nat -> bool)
+         (g0 : gstate (gresult gmodule) hasher FollowupsGroestl.F_C18H.hop FollowupsGroestl.F_C18H.hout) (sched : list nat),
+    initial (gresult gmodule) hasher FollowupsGroestl.F_C18H.hop FollowupsGroestl.F_C18H.hout g0 ->
+    (cpu 0 || cpu 1 || cpu 2 = true)%nat ->
+    forall i t0 tf msg,
+      nth_error (threads _ _ _ _ g0) i = Some t0 ->
+      t_prog _ _ _ t0 = [FollowupsGroestl.F_C18H.HNew 256; FollowupsGroestl.F_C18H.HUpdate msg; FollowupsGroestl.F_C18H.HFinalize] ->
+      fits 64 msg ->
+      nth_error (threads _ _ _ _
+                   (run _ _ _ _ cpu (g_choose t) FollowupsGroestl.F_C18H.h_cell_of (FollowupsGroestl.F_C18H.h_exec sbox_fast) sched g0)) i = Some tf ->
+      t_prog _ _ _ tf = [] ->
+      exists r, t_outs _ _ _ tf = [FollowupsGroestl.F_C18H.HUnit; FollowupsGroestl.F_C18H.HUnit; FollowupsGroestl.F_C18H.HBytes r]
+                /\ out256 r = Spec.Groestl.groestl256 msg.
+Proof. exact FollowupsGroestl.F_C18H.concurrent_first_use_hasher256. Qed.
+
+Definition C18_groestl_examples := (g3_initial, g3_programs).
+
+Print Assumptions C18_groestl_hasher_calls.
+Print Assumptions C18_groestl_six_cells_agree.
+Print Assumptions C18_groestl256_concurrent_first_use.
+Print Assumptions C18_groestl512_concurrent_first_use.
+Print Assumptions C18_groestl256_concurrent_first_use_fair.
+Print Assumptions C18_groestl_no_sse2_all_calls_panic.
+Print Assumptions C18_groestl256_hasher_concurrent_first_use.
+Print Assumptions C18_groestl_examples.
